@@ -722,7 +722,8 @@ def lot_vectors_sparse(
     singular_values = None
     components = None
 
-    memmap_filename = os.path.join(tempfile.mkdtemp(dir=cachedir), "lot_tmp_memmap.dat")
+    memmap_dir = tempfile.TemporaryDirectory(dir=cachedir)
+    memmap_filename = os.path.join(memmap_dir.name, "lot_tmp_memmap.dat")
     saved_blocks = np.memmap(
         memmap_filename,
         mode="w+",
@@ -772,7 +773,7 @@ def lot_vectors_sparse(
     )
     result = saved_blocks @ components.T
     del saved_blocks
-    os.remove(memmap_filename)
+    memmap_dir.cleanup()
 
     return result, components
 
@@ -901,7 +902,8 @@ def lot_vectors_dense(
     singular_values = None
     components = None
 
-    memmap_filename = os.path.join(tempfile.mkdtemp(dir=cachedir), "lot_tmp_memmap.dat")
+    memmap_dir = tempfile.TemporaryDirectory(dir=cachedir)
+    memmap_filename = os.path.join(memmap_dir.name, "lot_tmp_memmap.dat")
     saved_blocks = np.memmap(
         memmap_filename,
         mode="w+",
@@ -951,7 +953,7 @@ def lot_vectors_dense(
     )
     result = saved_blocks @ components.T
     del saved_blocks
-    os.remove(memmap_filename)
+    memmap_dir.cleanup()
 
     return result, components
 
@@ -1096,7 +1098,8 @@ def lot_vectors_dense_generator(
     singular_values = None
     components = None
 
-    memmap_filename = os.path.join(tempfile.mkdtemp(dir=cachedir), "lot_tmp_memmap.dat")
+    memmap_dir = tempfile.TemporaryDirectory(dir=cachedir)
+    memmap_filename = os.path.join(memmap_dir.name, "lot_tmp_memmap.dat")
     saved_blocks = np.memmap(
         memmap_filename,
         mode="w+",
@@ -1166,7 +1169,7 @@ def lot_vectors_dense_generator(
     )
     result = saved_blocks @ components.T
     del saved_blocks
-    os.remove(memmap_filename)
+    memmap_dir.cleanup()
 
     return result, components
 
@@ -1303,7 +1306,8 @@ def sinkhorn_vectors_sparse(
     singular_values = None
     components = None
 
-    memmap_filename = os.path.join(tempfile.mkdtemp(dir=cachedir), "lot_tmp_memmap.dat")
+    memmap_dir = tempfile.TemporaryDirectory(dir=cachedir)
+    memmap_filename = os.path.join(memmap_dir.name, "lot_tmp_memmap.dat")
     saved_blocks = np.memmap(
         memmap_filename,
         mode="w+",
@@ -1366,7 +1370,7 @@ def sinkhorn_vectors_sparse(
     )
     result = saved_blocks @ components.T
     del saved_blocks
-    os.remove(memmap_filename)
+    memmap_dir.cleanup()
 
     return result, components
 
